@@ -5,7 +5,7 @@ import framework as fw
 import c20_opts   # round 6: to_nsq main loop end-to-end leg + option surface (sub-builder `relay`)
 
 TIE = ["Nsq.Tie.ToolsSplit", "Nsq.Tie.ToolsRelay"] + c20_opts.TIE
-PROPS = ["Nsq.Props.C20"] + c20_opts.PROPS
+PROPS = ["Nsq.Props.C20", "Nsq.Props.C20GiveUp"] + c20_opts.PROPS
 CORPUS = os.path.join(fw.ROOT, "corpus", "C20")
 F5_KEY = "to_nsq-unterminated-final-record"
 
